@@ -24,7 +24,10 @@ A term is a hashable tuple:
 """
 from .facts import callee_of, resolved
 
-MAX_DEPTH = 40
+import sys
+
+sys.setrecursionlimit(20000)
+MAX_DEPTH = 400
 
 # global registry of callee descriptors so that call terms are meaningful across Sym instances
 CALLINFO = []
